@@ -220,6 +220,7 @@ func c17Child(c *mon.Child) {
 		{"joined", func(k numKind) reflect.Type { return k.typ }, `@( Minus? Tok )`, "joined", false},
 		{"joined-named-pointer", func(k numKind) reflect.Type { return reflect.PtrTo(k.named) }, `@( Minus Minus? Tok | Tok )`, "joined", false},
 		{"scalar-elide-option", func(k numKind) reflect.Type { return k.typ }, `@Tok`, "scalar", true},
+		{"joined-elide-option", func(k numKind) reflect.Type { return k.typ }, `@( Minus? Tok )`, "joined", true},
 		{"enclosing-alternative", nil, ``, "alt", false},
 	}
 	for ki, k := range numKinds {
